@@ -355,7 +355,12 @@ func draw(t *rapid.T) Case {
 	var cs Case
 	cs.Data = pol.GenData(t, "data")
 	cfg := pol.GenCfg{Depth: 3, MaxStmt: 3}
+	if rapid.IntRange(0, 4).Draw(t, "longpolicy") == 0 {
+		cfg.MaxStmt = 8 // long top-level conjunctions (a matcher that stops early shows only there)
+		cfg.Depth = 1
+	}
 	cs.Pol = pol.Gen(t, cs.Data, cfg, "p")
+	cfg = pol.GenCfg{Depth: 3, MaxStmt: 3}
 	if rapid.IntRange(0, 11).Draw(t, "focuslike") == 0 {
 		// like over a long, self-overlapping subject (expensive for a backtracking matcher), also under not / all
 		n := rapid.SampledFrom([]int{30, 60, 100, 400, 3000}).Draw(t, "ln")
